@@ -187,6 +187,7 @@ type run struct {
 	soft         *sim.Violation // recorded-finding class seen in this run (reported only if nothing else fails)
 	c06Delivered bool
 	c06Victim    *transaction.Transaction
+	afterX       []*transaction.Transaction // C04: halting transactions that follow X / its twin in the block
 }
 
 func (r *run) violate(v *sim.Violation) {
